@@ -242,17 +242,25 @@ def build_rows(c, kind, seed, cost=None, fixed=False, salt=''):
   meta = {'kind': kind, 'salt': salt, 'n_geos': dict(ng), 'extra_dates': [d for d, s in enumerate(slots) if s[1] is None],
           'assigned_days': [d for d, s in enumerate(slots) if s[1] is not None],
           'unassigned_geos': unassigned, 'unassigned_partial': bool(unassigned and partial), 'shuffled': shuffled}
+  meta['date_step'] = date_step(rows)
   return rows, meta
 
 
 BASE_DATE = '2020-02-25'   # straddles a leap day and a month end
 
 
+def date_step(rows):
+  """Calendar step between consecutive dates of a frame (deterministic in the rows)."""
+  return (1, 1, 7, 2)[(len(rows) + int(sum(r['response'] for r in rows))) % 4]
+
+
 def to_frame(pd, rows, with_cost, int_dtype=False):
   base = pd.Timestamp(BASE_DATE)
   cols = ['date', 'geo', 'group', 'period', 'response'] + (['cost'] if with_cost else [])
   df = pd.DataFrame([{k: r[k] for k in cols} for r in rows], columns=cols)
-  df['date'] = [base + pd.Timedelta(days=int(d)) for d in df['date']]
+  # the model only uses the ORDER of the dates: daily, every other day or weekly calendars give the same posterior
+  step = date_step(rows)
+  df['date'] = [base + pd.Timedelta(days=int(d) * step) for d in df['date']]
   if not int_dtype:
     df['response'] = df['response'].astype(float)
     if with_cost:
@@ -339,11 +347,14 @@ def check_tbr(mods, c, exp, rows, meta, uc, combos, with_cost, int_dtype, matche
   # single-day accessor agrees with the vector
   kk = (len(rows) + ndays) % ndays
   try:
-    one = m.causal_cumulative_distribution(time=kk, rescale=0.25)
-    if not (close(float(one.kwds['loc']), 0.25 * exp['loc'][kk], exp['sd'][kk]) and
-            close(float(one.kwds['scale']), 0.25 * exp['sd'][kk])):
-      out.append(('SingleDayAccessor', 'time=%d rescale=0.25: loc=%r scale=%r demanded %r %r' % (
-          kk, one.kwds['loc'], one.kwds['scale'], 0.25 * exp['loc'][kk], 0.25 * exp['sd'][kk]), None, None))
+    # the day is selected by an index into the analysed days: from the front (kk) and from the back (kk - ndays)
+    for tix in (kk, kk - ndays):
+      one = m.causal_cumulative_distribution(time=tix, rescale=0.25)
+      if not (close(float(one.kwds['loc']), 0.25 * exp['loc'][kk], exp['sd'][kk]) and
+              close(float(one.kwds['scale']), 0.25 * exp['sd'][kk])):
+        out.append(('SingleDayAccessor', 'time=%d rescale=0.25: loc=%r scale=%r demanded %r %r' % (
+            tix, one.kwds['loc'], one.kwds['scale'], 0.25 * exp['loc'][kk], 0.25 * exp['sd'][kk]), None, None))
+        break
   except Exception as e:  # pylint: disable=broad-except
     out.append(('SingleDayAccessor', '%s: %s' % (type(e).__name__, e), None, None))
   for j, combo in enumerate(combos):
